@@ -6,6 +6,10 @@ jobdir/job.json : {program, base, settings, result, W, mode}
   mode 'lockrace'    the two work packages of a 2-iteration run are executed in two forked processes whose lock
                      steps are delayed so that both pass pylocker's check before either writes (nothing else changed)
   mode 'locktimeout' the single work package of a 1-iteration run finds the lock held by a live foreign locker
+  mode 'lockoverlap' two forked work packages; B comes to the lock while A is held inside its critical section (A's
+                     release is delayed by up to 2 s): with a lock that excludes, B gets in only after A has left
+  mode 'api2'        two GeophiresMonteCarloClient.get_monte_carlo_result() calls in this process onto the same output path
+                     (job['settings'] then job['settings2']); what the API returned is recorded next to the files
   mode 'stalelock'   the real pool (as 'pool'), but an earlier process died while holding <result dir>/.lock
 Observation only: work_package, Locker and the np.random functions are wrapped by recording pass-throughs.
 jobdir/out.json : {main_error, tasks: [{pid, seq, t0, t1, status, trace, lock}]}"""
@@ -38,7 +42,8 @@ logging.disable(logging.CRITICAL)
 _sr = [ln.split(',', 1)[1].strip() for ln in Path(job['settings']).read_text().splitlines() if ln.startswith('MC_OUTPUT_FILE')]
 RESULT_PATH = _sr[-1] if _sr else job['result']      # an MC_OUTPUT_FILE line overrides the argument
 BLK = os.stat(os.path.dirname(os.path.abspath(RESULT_PATH))).st_blksize
-REC = {'trace': None, 'lock': None, 'seq': 0, 'role': None, 'writes': None}
+REC = {'trace': None, 'lock': None, 'seq': 0, 'role': None, 'writes': None, 'lock_pass': None, 'overlap': None}
+RACE, OVERLAP = job['mode'] == 'lockrace', job['mode'] == 'lockoverlap'
 WAIT = 20.0
 mp = multiprocessing.get_context('fork')
 EV = {n: mp.Event() for n in ('B_in_rename', 'A_acquired', 'B_acquired', 'A_released')}
@@ -64,11 +69,19 @@ class ObservedLocker(pylocker.Locker):
     """pass-through that records (acquired, code, fd is None) and the outcome of the first release; in mode
     'lockrace' it also delays the lock steps of the two roles (A = task 0, B = task 1)."""
 
+    def __init__(self, *a, **k):
+        super().__init__(*a, **k)
+        REC['lock_pass'] = k.get('lockPass', a[1] if len(a) > 1 else None)
+
     def acquire_lock(self, *a, **k):
-        if REC['role'] == 'A':
+        if RACE and REC['role'] == 'A':
             EV['B_in_rename'].wait(WAIT)
+        if OVERLAP and REC['role'] == 'B':
+            EV['A_acquired'].wait(WAIT)          # A's pass phrase is verified in the lock file: A is inside
         r = super().acquire_lock(*a, **k)
         if REC['role']:
+            if OVERLAP and REC['role'] == 'B' and r[0]:
+                REC['overlap'] = not EV['A_released'].is_set()     # let in while A has not left
             EV[REC['role'] + '_acquired'].set()
         return r
 
@@ -80,15 +93,19 @@ class ObservedLocker(pylocker.Locker):
     def release_lock(self, *a, **k):
         first = not getattr(self, '_verif_released', False)
         self._verif_released = True
-        if first and REC['role'] == 'A':
+        if first and RACE and REC['role'] == 'A':
             EV['B_acquired'].wait(WAIT)
-        if first and REC['role'] == 'B':
+        if first and RACE and REC['role'] == 'B':
             EV['A_released'].wait(WAIT)
+        if first and OVERLAP and REC['role'] == 'A':
+            EV['B_acquired'].wait(2.0)           # stay inside for up to 2 s: does B get in meanwhile?
+            REC['overlap'] = EV['B_acquired'].is_set()
+            EV['A_released'].set()
         r = super().release_lock(*a, **k)
         if first:
             if REC['lock'] is not None:
                 REC['lock'].update(released=bool(r[0]), release_code=str(r[1]))
-            if REC['role'] == 'A':
+            if RACE and REC['role'] == 'A':
                 EV['A_released'].set()
         return r
 
@@ -122,7 +139,7 @@ _orig_rename = os.rename
 
 
 def _rename(src, dst, *a, **k):
-    if REC['role'] == 'B' and os.path.basename(str(dst)) == '.lock' and not EV['B_in_rename'].is_set():
+    if RACE and REC['role'] == 'B' and os.path.basename(str(dst)) == '.lock' and not EV['B_in_rename'].is_set():
         EV['B_in_rename'].set()          # B has passed the check and is about to publish its pass
         EV['A_acquired'].wait(WAIT)
     return _orig_rename(src, dst, *a, **k)
@@ -133,7 +150,7 @@ _orig_wp = MC.work_package
 
 
 def work_package(pass_list):
-    REC['trace'], REC['lock'], REC['writes'] = [], None, []
+    REC['trace'], REC['lock'], REC['writes'], REC['lock_pass'], REC['overlap'] = [], None, [], None, None
     t0, status = time.time(), 'ok'
     try:
         return _orig_wp(pass_list)
@@ -143,7 +160,7 @@ def work_package(pass_list):
     finally:
         rec = {'pid': os.getpid(), 'seq': REC['seq'], 't0': t0, 't1': time.time(), 'status': status,
                'trace': REC['trace'], 'lock': REC['lock'], 'role': REC['role'], 'writes': REC['writes'],
-               'blksize': BLK}
+               'blksize': BLK, 'lock_pass': REC['lock_pass'], 'overlap': REC['overlap']}
         REC['seq'] += 1
         with open(JOB / 'log' / f'{os.getpid()}.jsonl', 'a') as f:
             f.write(json.dumps(rec) + '\n')
@@ -163,9 +180,9 @@ class TwoProcessExecutor:
     def __exit__(self, *a):
         return False
 
-    def map(self, fn, args):
+    def map(self, fn, args, timeout=None, chunksize=1):
         def child(i, a):
-            REC['role'] = 'AB'[i] if job['mode'] == 'lockrace' else None
+            REC['role'] = 'AB'[i] if RACE or OVERLAP else None
             try:
                 fn(a)
             except BaseException:  # noqa
@@ -194,19 +211,33 @@ if job['mode'] == 'stalelock':
     _p = mp.Process(target=_die_holding_the_lock)
     _p.start()
     _p.join(60)
-if job['mode'] in ('pool', 'stalelock'):
+if job['mode'] in ('pool', 'stalelock', 'api2'):
     os.cpu_count = lambda: int(job['W'])
     if hasattr(os, 'process_cpu_count'):
         os.process_cpu_count = os.cpu_count
 else:
     concurrent.futures.ProcessPoolExecutor = TwoProcessExecutor
 
-main_error, cwd = None, os.getcwd()
+def _read_tasks():
+    ts = [json.loads(ln) for f in sorted((JOB / 'log').glob('*.jsonl')) for ln in f.read_text().splitlines()]
+    ts.sort(key=lambda t: (t['t0'], t['pid'], t['seq']))
+    return ts
+
+
+main_error, cwd, api = None, os.getcwd(), []
 try:
-    MC.main([str(SimulationProgram[job['program']].code_file_path), job['base'], job['settings'], job['result']])
+    if job['mode'] == 'api2':
+        from geophires_monte_carlo import GeophiresMonteCarloClient, MonteCarloRequest
+        for k, st in enumerate((job['settings'], job['settings2'])):
+            for f in (JOB / 'log').glob('*.jsonl'):
+                f.unlink()
+            res = GeophiresMonteCarloClient().get_monte_carlo_result(
+                MonteCarloRequest(SimulationProgram[job['program']], Path(job['base']), Path(st), Path(job['result'])))
+            api.append({'output': res.result['output'], 'json_text': Path(res.json_output_file_path).read_text(),
+                        'result_text': Path(res.output_file_path).read_text(), 'tasks': len(_read_tasks())})
+    else:
+        MC.main([str(SimulationProgram[job['program']].code_file_path), job['base'], job['settings'], job['result']])
 except BaseException as e:  # noqa
     main_error = f'{type(e).__name__}: {e}'[:500]
 os.chdir(cwd)
-tasks = [json.loads(ln) for f in sorted((JOB / 'log').glob('*.jsonl')) for ln in f.read_text().splitlines()]
-tasks.sort(key=lambda t: (t['t0'], t['pid'], t['seq']))
-(JOB / 'out.json').write_text(json.dumps({'main_error': main_error, 'tasks': tasks}))
+(JOB / 'out.json').write_text(json.dumps({'main_error': main_error, 'tasks': _read_tasks(), 'api': api}))
